@@ -668,7 +668,7 @@ func run(c *lib.Ctx) error {
 	modes := []string{"number", "tlnr", "tlt"}
 	perCombo := 2
 	if c.Thorough() {
-		perCombo = 12
+		perCombo = 4
 	}
 	for si, sp := range specs {
 		a := byPath[sp.path]
@@ -679,10 +679,25 @@ func run(c *lib.Ctx) error {
 		segMS := (a.RefDur*1000 + a.RefTS*N/2) / (a.RefTS * N)
 		var pphs []int64
 		if c.Thorough() {
-			for p := int64(1); p <= 3600; p++ {
-				if 3600%p == 0 || ((3600/p)*1000)%segMS == 0 || rng.Intn(40) == 0 {
+			// all divisors, for every distinct period duration the smallest and the largest value
+			// that gives it, and a random sample of 1..3600
+			seen := map[int64]bool{}
+			add := func(p int64) {
+				if p >= 1 && p <= 3600 && !seen[p] {
+					seen[p] = true
 					pphs = append(pphs, p)
 				}
+			}
+			for _, p := range divisors3600 {
+				add(p)
+			}
+			for p := int64(1); p <= 3600; p++ {
+				if p == 1 || 3600/p != 3600/(p-1) || p == 3600 || 3600/p != 3600/(p+1) {
+					add(p)
+				}
+			}
+			for k := 0; k < 120; k++ {
+				add(int64(1 + rng.Intn(3600)))
 			}
 		} else {
 			pphs = append(pphs, divisors3600...)
